@@ -1,5 +1,6 @@
 import Propka.Model.Hybrid36
 import Propka.Model.Rotation
+import Propka.Model.BondsDriver
 /-! Line-protocol driver: one request per line `<module> <args…>`, one response line each. -/
 open Propka
 
@@ -7,6 +8,7 @@ def dispatch (ws : List String) : String :=
   match ws with
   | "h36" :: r => H36.handle r
   | "rot" :: r => Rot.handle r
+  | "bonds" :: r => Bonds.handle r
   | ["ping"] => "pong"
   | _ => "bad-op"
 
